@@ -1,0 +1,17 @@
+//go:build verif
+
+// Contracts for the verification framework in /verif (comment-only file; it is
+// compiled only with -tags verif and contributes no code). Syntax: CONTRACTS.md.
+
+package ebpf
+
+// ---- loader.go: relay circuit-id key (C20) ----
+//
+// The key under which a relay circuit-id is stored in circuit_id_subscribers is
+// the circuit-id truncated to 32 bytes and zero padded. The contract states the
+// exact key; whether two circuit-ids get the same key is then a pure question
+// about this function (see REPORT: not injective beyond 32 bytes / trailing NULs).
+
+//@ func MakeCircuitIDKey
+//@   modifies nothing
+//@   ensures forall i int :: 0 <= i && i < 32 ==> result[i] == ite(i < len(circuitID), circuitID[i], 0)
